@@ -227,6 +227,15 @@ def corpus(tier):
             out.append(_plan([search(carrier, STRANGER), search(carrier, STRANGER, gap=gap), search(carrier, FRIEND, gap=gap),
                               search(carrier, STRANGER, gap=gap)],
                              parent=None if carrier == 'server' else 'default', asker_hangup=True, slow_closing=2.0))
+    # 9. a child user with two connections at once, one of them goes away; the parent's user dials in a second time
+    for carrier in ('dist', 'legacy'):
+        for which in ('old', 'new'):
+            for how in ('close', 'abort'):
+                out.append(_plan([search(carrier), {'op': 'rejoin', 'peer': 'c0', 'gap': 0.3}, search(carrier, gap=1.0),
+                                  {'op': 'leave', 'peer': 'c0', 'how': how, 'which': which, 'gap': 0.3}, search(carrier, gap=1.0),
+                                  search(carrier, FRIEND, gap=0.3)], parent='default'))
+        out.append(_plan([search(carrier), {'op': 'parent_rejoin', 'gap': 0.3}, search(carrier, gap=1.0),
+                          search(carrier, FRIEND, gap=0.3)], parent='default'))
     # 6. tickets at the edges of the range
     out.append(_plan([dict(search('dist'), ticket=t) for t in TICKETS]))
     return out
@@ -504,7 +513,8 @@ def _run(world: World, plan):
                     't': loop.time(), 'iteration': loop.iterations, 'has_parent': parent is not None,
                     'from_parent': parent is not None and parent.connection is conn,
                     'parent_sim': conn_sim.get(id(parent.connection)) if parent is not None else None,
-                    'children': sims_of(dn.children), 'session': client.session is not None}
+                    'children': sims_of(dn.children), 'session': client.session is not None,
+                    'parent_user': parent.username if parent is not None else None}
                 world.trace('request_delivered', req['id'], carrier, tuple(req['delivered']['children']))
                 break
 
@@ -587,8 +597,23 @@ def _run(world: World, plan):
             if live(peer.name, 'con') is None:
                 peer.spawn(dial_in(peer))
                 sig_steps.append(('join', len(dn.children)))
+        elif op == 'rejoin':
+            # the same user connects once more while its earlier connection is still there (a re-connect before the stale
+            # connection is noticed, both attempts of a race-mode connect)
+            peer = peers[step['peer']]
+            world.net.fired['second_connection_of_a_child'] += 1
+            peer.spawn(dial_in(peer))
+            sig_steps.append(('rejoin', len(dn.children)))
+        elif op == 'parent_rejoin':
+            # the parent's user opens a second, incoming connection
+            world.net.fired['parent_user_dials_in'] += 1
+            peers[PARENT].spawn(dial_in(peers[PARENT]))
+            sig_steps.append(('parent_rejoin', dn.parent is not None))
         elif op == 'leave':
             rec = live(step['peer'], 'con')
+            if step.get('which') == 'old':
+                olds = [r for r in dlinks[step['peer']]['con'] if r['ended'] is None]
+                rec = olds[0] if olds else None
             if rec is not None:
                 end_link(rec, step.get('how', 'close'))
                 sig_steps.append(('leave', step.get('how', 'close'), len(dn.children)))
@@ -736,6 +761,11 @@ def _run(world: World, plan):
                 if copies:
                     world.violate('C14.own_forwarded', **base)
                 continue
+            if copies and req['carrier'] != 'server' and d.get('parent_user') and rec['peer'] == d['parent_user'] \
+                    and sim_id != d['parent_sim']:
+                # "never back to the parent": also not over another connection of the parent's user
+                world.violate('C14.fanout_wrong_target', role='parent_user', **base)
+                continue
             if sim_id in must:
                 if not copies:
                     world.violate('C14.fanout_missing', **base)
@@ -748,6 +778,12 @@ def _run(world: World, plan):
                 adm = admitted_at.get(sim_id)
                 if adm is not None and abs(adm - td) <= EPS:
                     continue                    # admitted in the instant of the delivery
+                if adm is not None and adm < td - 1.0 and rec['ended_at'] is None and sim_id != d['parent_sim'] \
+                        and rec['peer'] != d.get('parent_user') and not copies:
+                    # it was admitted as a child long before, its connection stayed open until the end of the run, and yet
+                    # it is not among the children any more: the request never reached an open child connection
+                    world.violate('C14.fanout_missing', why='open_child_connection_dropped', **base)
+                    continue
                 if rec['ended_at'] is None or rec['ended_at'] > td:
                     n_other += 1
                 if copies:
